@@ -125,6 +125,7 @@ def _execute(trace):
         twin = tmanager = tview = None
         n_appends = 0
         inserted_seen = 0
+        ha_armed = True
         for i, op in enumerate(trace["ops"]):
             run.op_index = i
             kind = op["op"]
@@ -160,10 +161,15 @@ def _execute(trace):
             buckets = refmodels.resample(delivered, tf_s)
             want_rows, flags = refmodels.fill(buckets, tf_s)
             want = [tuple(r) for r in want_rows]
+            want_full, keep = want, None
             if lifespan is not None and want:
                 keep = refmodels.trim([w[0] for w in want], lifespan)
                 want = [want[k] for k in keep]
                 flags = [flags[k] for k in keep]
+                if len(keep) < 2:
+                    # a window of one candle: a merge into it is re-converted without its (evicted) predecessor,
+                    # from then on the converted series is off the whole-stream recurrence (C11's guard)
+                    ha_armed = False
             run.observe(kind, got)
             for x in range(len(got) - 1):
                 if got[x + 1][0] - got[x][0] != tf_s:
@@ -185,10 +191,13 @@ def _execute(trace):
             if real != nofill:
                 raise Violation("real-buckets-vs-nofill-twin", route, "differ",
                                 {"n_real": len(real), "n_twin": len(nofill)})
-            if ctype and lifespan is None and want:
-                # the series indicators see: the Heikin-Ashi recurrence over the filled raw series
+            if ctype and want and ha_armed:
+                # the series indicators see: the Heikin-Ashi recurrence over the WHOLE filled raw series
+                # (of which a lifespan retains a suffix)
                 shown = snap_cores(view())
-                ha = [tuple(r) for r in refmodels.heikin_ashi(want)]
+                ha = [tuple(r) for r in refmodels.heikin_ashi(want_full)]
+                if keep is not None:
+                    ha = [ha[k] for k in keep]
                 if len(shown) == len(ha):
                     for j, (a, b) in enumerate(zip(shown, ha)):
                         if a[0] != b[0] or any(abs(x - y) > 1e-9 * max(1.0, abs(y)) for x, y in zip(a[1:5], b[1:5])):
